@@ -400,7 +400,7 @@ def diff_lines(impl, model, fields=None, skip=()):
         return out
     keys = fields if fields is not None else sorted(set(fi) | set(fm))
     for k in keys:
-        if k in skip:
+        if k in skip or k == "kinds":   # `kinds` exists on the model's line only: the admissible set for `kind`
             continue
         a, b = fi.get(k), fm.get(k)
         if k == "kind" and a != b and a is not None and a in fm.get("kinds", "").split("+"):
